@@ -1,27 +1,53 @@
 ----------------------------- MODULE MCConsNet -----------------------------
-(* Universes of the exhaustive runs of ConsNetImpl. *)
+(* Universes of the exhaustive runs of ConsNetImpl: who sends what on which connection (Script), who holds which named
+   transaction, who never answers. *)
 EXTENDS ConsNetImpl
 
-\* U1: two honest relays holding one named transaction each, a garbage sender; the proposal, another valid payload, a forged one
+None == {}
+T2 == {"t1", "t2"}
+T3 == {"t1", "t2", "t3"}
+
+\* U1: two honest relays holding one named transaction each, a garbage sender; the proposal r, another valid payload y (sent
+\*     by both relays: duplicate), a forged one z followed by a valid one on the same connection
 P3 == {"a", "b", "g"}
-G1 == {"g"}
 X3 == {"r", "y", "z"}
 Cls3 == [r |-> "ok", y |-> "ok", z |-> "bad"]
-T2 == {"t1", "t2"}
 Holds1 == [a |-> {"t1"}, b |-> {"t2"}, g |-> {}]
-None == {}
+Script1 == [a |-> <<XM("r"), XM("y")>>, b |-> <<XM("y"), XM("r"), GM("y")>>, g |-> <<XM("z"), XM("y")>>]
 
-\* U2: one peer holds everything but never answers (it may push), the other holds everything; a payload of another category
+\* U2: a holds everything but never answers (it pushes one transaction nobody asked for), b holds everything and answers;
+\*     a payload of another category
 P2 == {"a", "b"}
 X2 == {"r", "c"}
 Cls2 == [r |-> "ok", c |-> "cat"]
 HoldsAll == [a |-> {"t1", "t2"}, b |-> {"t1", "t2"}]
 MuteA == {"a"}
+Script2 == [a |-> <<TM("t1"), XM("r")>>, b |-> <<XM("c"), GM("c"), GM("r")>>]
+\* ... and the variant in which ONLY the mute peer has the pushed transaction
+HoldsA1 == [a |-> {"t1", "t2"}, b |-> {"t2"}]
 
 \* U3: a named transaction exists only in a copy that fails verification
 Bad2 == {"t2"}
+Script3 == [a |-> <<XM("r")>>, b |-> <<XM("r"), TM("t2")>>]
 
-\* U4: three named transactions (two getdata messages with MaxH = 2)
-T3 == {"t1", "t2", "t3"}
+\* U4: three named transactions, two per getdata message; the transactions arrive pushed and as answers, duplicated
 Holds3 == [a |-> {"t1", "t3"}, b |-> {"t2", "t3"}]
+Script4 == [a |-> <<TM("t3"), XM("r")>>, b |-> <<XM("r"), TM("t3")>>]
+\* ... nobody pushes: everything has to be asked for
+Script4b == [a |-> <<XM("r")>>, b |-> <<>>]
+
+\* families of ConsNetSim
+Gg == {"g"}
+X2b == {"r", "y"}
+Cls2b == [r |-> "ok", y |-> "ok"]
+T1 == {"t1"}
+Bad1 == {"t1"}
+
+U(h, mu, sc) == {[holds |-> h, mute |-> mu, script |-> sc]}
+U1 == U(Holds1, None, Script1)
+U2 == U(HoldsAll, MuteA, Script2)
+U2b == U(HoldsA1, MuteA, Script2)
+U3 == U(HoldsAll, None, Script3)
+U4 == U(Holds3, None, Script4)
+U4b == U(Holds3, None, Script4b)
 =============================================================================
